@@ -134,6 +134,20 @@ Theorem C05_creation_in_reverted_frame_keeps_the_nonce_example :
 Proof. exact cr_nested_reverted_then_selfdestruct. Qed.
 Print Assumptions C05_creation_in_reverted_frame_keeps_the_nonce_example.
 
+(** A storage write that restores the value the slot had before the transaction is a write like any other: made in a
+    frame that fails, it is undone with the frame (model = implementation on three witnesses: directly re-entered,
+    re-entered through another contract that propagates the failure, kept by a succeeding frame and then repeated in
+    a failing one). *)
+Theorem C05_write_back_of_committed_value_in_reverted_frame_is_undone_example :
+  (model_obs w_wb_direct = impl_obs w_wb_direct /\ b_ok (model_obs w_wb_direct) = true /\
+   In (2%N, 1, 7) (b_storage (model_obs w_wb_direct))) /\
+  (model_obs w_wb_through_other_contract = impl_obs w_wb_through_other_contract /\ b_ok (model_obs w_wb_through_other_contract) = true /\
+   In (2%N, 0, 2) (b_storage (model_obs w_wb_through_other_contract))) /\
+  (model_obs w_wb_kept_then_reverted = impl_obs w_wb_kept_then_reverted /\ b_ok (model_obs w_wb_kept_then_reverted) = true /\
+   b_storage (model_obs w_wb_kept_then_reverted) = []).
+Proof. exact (conj wb_direct (conj wb_through_other_contract wb_kept_then_reverted)). Qed.
+Print Assumptions C05_write_back_of_committed_value_in_reverted_frame_is_undone_example.
+
 (** The frame theorem with CREATE: for every call tree without precompile calls — value transfers, storage writes,
     logs, self-destructs, reverts, and contract creations whose constructors run any such code, at any depth — the
     execution of an instruction leaves the Cosmos side untouched and extends the journal cleanly: reverting to any
